@@ -36,9 +36,9 @@ fn stale<S: Src>(s: &mut S, which: u8) {
     let mut rt = LogRt::new();
     let r = f.handle_timer(t, &mut rt);
     let post = snap(&f);
-    vassert!(r.is_ok(), "c13: a stale-epoch timer is not an error");
-    vassert!(rt.is_silent(), "c13: a stale-epoch timer causes no datagram, timer or notification");
-    vassert!(post.identical(&pre), "c13: a stale-epoch timer changes no state and draws no randomness");
+    vassert!(r.is_ok(), "c13+c17: a stale-epoch timer is not an error");
+    vassert!(rt.is_silent(), "c13+c17: a stale-epoch timer causes no datagram, timer or notification");
+    vassert!(post.identical(&pre), "c13+c17: a stale-epoch timer changes no state and draws no randomness");
     vcover!(pre.conn == ConnectionState::Connected, "stale timer while connected");
 }
 
@@ -314,8 +314,11 @@ pub fn t_remove<S: Src>(s: &mut S) {
 
 /// Periodic timers with the current token.
 fn periodic<S: Src>(s: &mut S, which: u8) {
-    let mut sh = Shape::k(3);
-    sh.backlog = if which == 1 { 1 } else { 0 };
+    periodic_b(s, which, if which == 1 { 1 } else { 0 })
+}
+fn periodic_b<S: Src>(s: &mut S, which: u8, backlog: usize) {
+    let mut sh = Shape::k(if backlog == 0 && which == 1 { 1 } else { 3 });
+    sh.backlog = backlog;
     let mut f = arb_foca(s, sh);
     let pre = snap(&f);
     let (t, enabled, after, want_members) = match which {
@@ -416,6 +419,10 @@ pub fn t_announce<S: Src>(s: &mut S) {
 }
 pub fn t_gossip<S: Src>(s: &mut S) {
     periodic(s, 1)
+}
+/// periodic gossip with nothing to disseminate: still re-arms, sends nothing
+pub fn t_gossip_idle<S: Src>(s: &mut S) {
+    periodic_b(s, 1, 0)
 }
 pub fn t_announce_down<S: Src>(s: &mut S) {
     periodic(s, 2)
